@@ -350,7 +350,7 @@ func c08Run(cs c08Case, twin bool) *c08Obs {
 }
 
 func checkC08(rep *vk.Report) {
-	rep.Rule = "scenario = composition containing a retry or hedge policy (plus breaker, free or full bulkhead, exhausted rate limiter, fallback outside or inside) x cancellation source (context cancel, context deadline, enclosing Timeout, async ExecutionResult.Cancel) x event-triggered firing point (before the call, on the k-th function entry with the function then blocking, on the k-th OnRetryScheduled i.e. inside a 3s retry delay, at the k-th function exit i.e. between recording and the next attempt, after a micro delay while waiting for a limiter/bulkhead permit) x sync/async, with yield points between Cancel's two steps and before InitializeRetry perturbed. Each scenario is also run un-cancelled with zero delays (twin). Oracles: result is the cause's error (errors.Is) or exactly the twin's result; no fallback invocation; <=1 function entry after the cancel marker (taken after cancel returned / by a watcher on Done); blocking attempts observe the cancellation; completion earlier than marker + the wait being interrupted (3s delay, 1s limiter, 3s bulkhead). Non-trivial: the cancellation landed before completion; distinct by (composition, source, trigger, k, async, where it landed)."
+	rep.Rule = "scenario = composition containing a retry or hedge policy (plus breaker, free or full bulkhead, exhausted rate limiter, fallback outside or inside) x cancellation source (context cancel, context deadline, enclosing Timeout, async ExecutionResult.Cancel) x event-triggered firing point (before the call, on the k-th function entry with the function then blocking, on the k-th OnRetryScheduled i.e. inside a 3s retry delay, at the k-th function exit i.e. between recording and the next attempt, after a micro delay while waiting for a limiter/bulkhead permit) x sync/async, with yield points between Cancel's two steps and before InitializeRetry perturbed. Each scenario is also run un-cancelled with zero delays (twin). Oracles: result is the cause's error (errors.Is) or exactly the twin's result; no fallback invocation; <=1 function entry after the cancel marker (taken after cancel returned / by a watcher on Done); blocking attempts observe the cancellation; completion earlier than marker + the wait being interrupted (3s delay, 1s limiter, 3s bulkhead). Plus a high-volume stress without yield hooks: Cancel at PRNG instants on endlessly retrying async executions must always give ErrExecutionCanceled. Non-trivial: the cancellation landed before completion; distinct by (composition, source, trigger, k, async, where it landed)."
 	rep.Assumptions = []string{
 		"the cancel marker is never earlier than the true cancellation instant, so counting later function entries cannot over-count",
 		"promptness is judged only against the configured waits: completion >= marker + wait is a violation, between half and full is inconclusive",
@@ -366,6 +366,8 @@ func checkC08(rep *vk.Report) {
 		}
 		c08Scenario(rep, idx, "C08")
 	})
+	failsafe.VerifSetYield(nil)
+	cancelStress(rep, "C08", 50000000, scale(rep, 30000, 1500000))
 	reportYields(rep)
 	for _, cl := range []string{"landed_inside_function", "landed_in_retry_delay", "landed_in_policy_wait", "landed_at_function_exit", "landed_in_failure_listener", "landed_after_completion", "landed_before_start"} {
 		rep.Require(cl, 10)
